@@ -721,6 +721,32 @@ def run(rep, tier, rng):
         if missing:
             rep.violation(f"C04|duplicate-entry-silently-dropped|{where}", f"two entries for `{tr}` on one {where}: accepted, but the predicate of level marker {missing} is not in the impl ({sorted(atoms)}): {r['item']}",
                           {"spec": None, "code": "", "request": r, "marks": list(marks), "trait": tr})
+    # ---- a repeated field type in front of other bound types: every distinct type keeps its predicate (E-exp)
+    PH = "::core::marker::PhantomData"
+    rep_items = [
+        (f"struct Ty<T, U>(T, T, #[derive_ex(Clone(bound(U)))] {PH}<U>);", "Clone", ["T", "U"]),
+        (f"struct Ty<T, U, V> {{ a: T, b: T, #[derive_ex(PartialEq(bound(U, ..)))] c: {PH}<U>, d: ::core::option::Option<V> }}", "PartialEq", ["T", "U", "::core::option::Option<V>"]),
+        (f"enum Ty<T, U> {{ A(T), B(T, T), #[derive_ex(Debug(bound(U)))] C({PH}<U>), D(::std::vec::Vec<U>) }}", "Debug", ["T", "U", "::std::vec::Vec<U>"]),
+        ("struct Ty<T, U>(::dxrt::Fwd<T>, ::dxrt::Fwd<T>, T, U, U);", "Add", ["::dxrt::Fwd<T>", "T", "U"]),
+    ]
+    rreqs, rmeta = [], []
+    for item, tr, want in rep_items:
+        for entry in ("attr", "derive"):
+            rreqs.append({"id": len(rreqs), "entry": entry, "attr": tr if entry == "attr" else "", "item": item if entry == "attr" else f"#[derive_ex({tr})] {item}"})
+            rmeta.append((tr, want, entry))
+    for o, r, (tr, want, entry) in zip(C.expand(rreqs), rreqs, rmeta):
+        rep.evaluations += 1
+        rep.count("repeated_field_type_requests")
+        if o.get("status") != "ok" or not o.get("parses"):
+            rep.violation("C04|repeated-type|expansion-failed", str(r)[:300], {"spec": None, "code": "", "request": r, "marks": [], "trait": tr})
+            continue
+        slots, _ = C.impl_slots(o["items"], [tr], skip_first_item=(entry == "attr"))
+        norm = lambda x: x.replace(" ", "")
+        tys = {norm(a["ty"]).lstrip("&'_a") for it in (slots[0]["items"] if slots[0]["status"] == "impl" else []) for a in it.get("where_atoms", [])}
+        missing = [w for w in want if not any(norm(w) == t or t.endswith(norm(w)) for t in tys)]
+        if missing:
+            rep.violation(f"C04|repeated-type|predicate-missing", f"a repeated field type in front of other bound types: no predicate for {missing} in the impl of {tr} (bounded types: {sorted(tys)}): {r['item']}",
+                          {"spec": None, "code": "", "request": r, "marks": [], "trait": tr, "want_types": want})
     rep.rule = ("assignments of {absent, bound(), bound(P), bound(..), bound(P, ..), bound(Type), bound(Type, ..)} to the priority levels "
                 "(type / variant / field x helper attribute(s) / per-trait / shared), P = `T: M<i>` unique per level, Type = a wrapper "
                 "type unique per level, every field a distinct wrapper type; traits Copy, Clone, Debug, Default, the five comparison "
@@ -748,6 +774,9 @@ def replay(rep, path):
             slots, _ = C.impl_slots(o["items"], [j["trait"]], skip_first_item=(j["request"]["entry"] == "attr"))
             atoms = {a["short"] for a in slots[0]["items"][0].get("where_atoms", [])} if slots[0]["status"] == "impl" else set()
             bad = any(not any(f"M<{m}>" in a.replace(" ", "") for a in atoms) for m in j["marks"])
+            if j.get("want_types"):
+                tys = {a["ty"].replace(" ", "") for it in (slots[0]["items"] if slots[0]["status"] == "impl" else []) for a in it.get("where_atoms", [])}
+                bad = any(not any(t.endswith(w.replace(" ", "")) for t in tys) for w in j["want_types"])
         print(f"VIOLATION property=C04 replay={path}" if bad else "replay: no violation")
         return 1 if bad else 0
     c = C.compile_single(j["code"], header=HEADER)
